@@ -113,6 +113,8 @@ def key_tuple(spec, names, i):
         v = vecgen.canon_vals(c["kind"], c["vals"])[i]
         if vecgen.canon_is_na(c["kind"], v):
             out.append(("NA",))
+        elif c["kind"] == "date":
+            out.append(("v", v * 86400000000))       # a date is the instant of its midnight: equal to a datetime key of another unit
         else:
             out.append(("v", vecgen.sort_key(c["kind"], v)))
     return tuple(out)
